@@ -139,7 +139,14 @@ func runC05(r *R) {
 	for i := 0; i < n; i++ {
 		var d *c05cmd
 		// bias towards progress so that deep states are visited
-		switch t.Choose(6) {
+		switch t.Choose(7) {
+		case 6:
+			// an unknown command with the next command pipelined right behind it
+			d = &c05alphabet[len(c05alphabet)-1]
+			cmds = append(cmds, rawCmd{Tag: fmt.Sprintf("c%d", i+1), Name: d.name, Parts: cat(d.line), NoWait: true})
+			defs = append(defs, d)
+			i++
+			d = &c05alphabet[5+t.Choose(3)]
 		case 0:
 			d = &c05alphabet[5+t.Choose(3)] // LOGIN / AUTHENTICATE
 		case 1:
@@ -326,12 +333,16 @@ func c05Judge(r *R, peer *rawPeer, b *stubBackend, defs []*c05cmd, useTLS, insec
 	calls := b.calls
 	ci := 0
 	closedSeen := false
+	logoutStep, prevReplyEnd := 0, 0
 	for i, o := range peer.outcomes {
 		d := defs[i]
 		if !o.Sent {
 			continue
 		}
 		if st == msLogout || closedSeen {
+			if logoutStep == 0 && prevReplyEnd > 0 {
+				logoutStep = stepOf(prevReplyEnd)
+			}
 			if o.Reply != nil {
 				r.Violate("command-after-logout", d.name, "command %s %s was answered (%s) although the connection was in the logout state", o.Cmd.Tag, d.name, o.describe())
 			}
@@ -352,6 +363,7 @@ func c05Judge(r *R, peer *rawPeer, b *stubBackend, defs []*c05cmd, useTLS, insec
 			continue
 		}
 		r.Nontrivial = true
+		prevReplyEnd = o.Reply.Line.End
 		// backend calls of this command: those made before its tagged reply was written
 		var mine []stubCall
 		if !useTLS {
@@ -435,6 +447,18 @@ func c05Judge(r *R, peer *rawPeer, b *stubBackend, defs []*c05cmd, useTLS, insec
 			checkCaps(o.Reply, post, d.name+" reply")
 		}
 		st = post
+	}
+	// once the connection is in the logout state (LOGOUT answered, or an unknown command before
+	// authentication answered) nothing but Close may reach the backend, whatever was pipelined
+	if (st == msLogout || closedSeen) && !useTLS && greet != 7 {
+		if logoutStep == 0 && prevReplyEnd > 0 {
+			logoutStep = stepOf(prevReplyEnd)
+		}
+		for _, c := range calls {
+			if logoutStep > 0 && c.Step > logoutStep && c.Method != "Close" {
+				r.Violate("backend-reached-after-logout", c.Method, "backend call %s happened (step %d) after the reply that put the connection in the logout state was written (step %d)", c, c.Step, logoutStep)
+			}
+		}
 	}
 	if st == msLogout && !peer.eof {
 		r.Violate("no-close-after-logout", "", "the server did not close the connection after entering the logout state")
